@@ -278,6 +278,58 @@ func genC11(repo string) (string, error) {
 		return true
 	})
 	sb.WriteString("def memdbCreatedTimeExpr : String := " + strconv.Quote(created) + "\n")
+	// metric block layout (tsdb/tblstore/metricsdata/flusher.go): the statements of the high-key
+	// branch of FlushSeries in source order, the deferred re-base of Level4, and the bases the
+	// offsets are taken against
+	_, flf, err := ParseFile(repo, "tsdb/tblstore/metricsdata/flusher.go")
+	if err != nil {
+		return "", err
+	}
+	var hkStmts, deferStmts []string
+	rebase := false
+	if fs := FindFunc(flf, "flusher", "FlushSeries"); fs != nil && fs.Body != nil {
+		for _, st := range fs.Body.List {
+			switch x := st.(type) {
+			case *ast.DeferStmt:
+				if fl, ok := x.Call.Fun.(*ast.FuncLit); ok {
+					for _, d := range fl.Body.List {
+						deferStmts = append(deferStmts, c11Text(d))
+					}
+				}
+			case *ast.IfStmt:
+				if c11Text(x.Cond) != "highKey != w.Level3.highKey" {
+					continue
+				}
+				footerSeen := false
+				for _, b := range x.Body.List {
+					t := c11Text(b)
+					if ifs, ok := b.(*ast.IfStmt); ok && ifs.Init != nil {
+						t = c11Text(ifs.Init) // `if err := w.flushLevel2SeriesBucket(); err != nil {return err}`
+					}
+					hkStmts = append(hkStmts, t)
+					if strings.Contains(t, "flushLevel2SeriesBucket()") {
+						footerSeen = true
+					}
+					if footerSeen && t == "w.Level4.startAt = int(w.kvWriter.Size())" {
+						rebase = true
+					}
+				}
+			}
+		}
+	}
+	sb.WriteString("def flushSeriesHighKeyBranch : List String := " + LeanStrList(hkStmts) + "\n")
+	sb.WriteString("def flushSeriesDeferred : List String := " + LeanStrList(deferStmts) + "\n")
+	sb.WriteString("def rebaseLevel4AfterBucketFooter : Bool := " + strconv.FormatBool(rebase) + "\n")
+	var bases []string
+	for _, fn := range []string{"flushField", "FlushSeries", "flushLevel2SeriesBucket"} {
+		ast.Inspect(FindFunc(flf, "flusher", fn), func(n ast.Node) bool {
+			if be, ok := n.(*ast.BinaryExpr); ok && be.Op == token.SUB && strings.Contains(c11Text(be.X), "kvWriter.Size()") {
+				bases = append(bases, fn+": "+c11Text(be))
+			}
+			return true
+		})
+	}
+	sb.WriteString("def flusherOffsetBases : List String := " + LeanStrList(bases) + "\n")
 	_, tsi, err := ParseFile(repo, "tsdb/memdb/time_series_index.go")
 	if err != nil {
 		return "", err
